@@ -198,7 +198,8 @@ theorem Inv.of_eq {a b : St} (h : Inv a) (he : b.envs = a.envs)
   ⟨by rw [he]; exact h.wf,
    ⟨fun t x hx => by rw [he]; rw [ht] at hx; exact h.g.thunks t x hx,
     fun f fn hx => by rw [he]; rw [hf] at hx; exact h.g.funcs f fn hx,
-    fun o ob hx => by rw [he]; rw [ho] at hx; exact h.g.objs o ob hx⟩⟩
+    fun o ob hx => by rw [he]; rw [ho] at hx; exact h.g.objs o ob hx⟩,
+   fun o ob hx => by rw [ho] at hx; exact h.shape o ob hx⟩
 
 theorem getElem?_push_cases {α} {a : Array α} {x y : α} {i : Nat} (h : (a.push x)[i]? = some y) :
     a[i]? = some y ∨ (i = a.size ∧ y = x) := by
@@ -224,7 +225,7 @@ theorem Inv.pushThunk {s : St} (h : Inv s) {x : TState}
       rcases getElem?_push_cases hy with hy | ⟨_, rfl⟩
       · exact h.g.thunks t y hy
       · exact hx,
-    h.g.funcs, h.g.objs⟩⟩
+    h.g.funcs, h.g.objs⟩, h.shape⟩
 
 theorem Inv.setThunk {s : St} (h : Inv s) {x : TState} (t : Nat)
     (hx : TStateOk (EnvOk s.envs) x) (runs : Array Nat) :
@@ -234,7 +235,7 @@ theorem Inv.setThunk {s : St} (h : Inv s) {x : TState} (t : Nat)
       rcases getElem?_set_cases hy with hy | ⟨_, rfl⟩
       · exact h.g.thunks u y hy
       · exact hx,
-    h.g.funcs, h.g.objs⟩⟩
+    h.g.funcs, h.g.objs⟩, h.shape⟩
 
 theorem Inv.pushFunc {s : St} (h : Inv s) {fn : Func}
     (hx : FuncOk (EnvOk s.envs) fn) :
@@ -245,7 +246,7 @@ theorem Inv.pushFunc {s : St} (h : Inv s) {fn : Func}
       rcases getElem?_push_cases hy with hy | ⟨_, rfl⟩
       · exact h.g.funcs t y hy
       · exact hx,
-    h.g.objs⟩⟩
+    h.g.objs⟩, h.shape⟩
 
 theorem S.pushFunc (s : St) (fn : Func) : S s { s with funcs := s.funcs.push fn } :=
   ⟨fun _ _ h => h,
@@ -255,14 +256,18 @@ theorem S.pushFunc (s : St) (fn : Func) : S s { s with funcs := s.funcs.push fn 
    fun _ ob h => ⟨ob, h, rfl⟩⟩
 
 theorem Inv.pushObj {s : St} (h : Inv s) {ob : Obj}
-    (hx : ∀ layer ∈ ob.layers, LayerOk (EnvOk s.envs) layer) :
+    (hx : ∀ layer ∈ ob.layers, LayerOk (EnvOk s.envs) layer ∧ LayerShape layer) :
     Inv { s with objs := s.objs.push ob } :=
   ⟨h.wf,
    ⟨h.g.thunks, h.g.funcs,
     fun t y hy => by
       rcases getElem?_push_cases hy with hy | ⟨_, rfl⟩
       · exact h.g.objs t y hy
-      · exact hx⟩⟩
+      · exact fun l hl => (hx l hl).1⟩,
+   fun t y hy => by
+      rcases getElem?_push_cases hy with hy | ⟨_, rfl⟩
+      · exact h.shape t y hy
+      · exact fun l hl => (hx l hl).2⟩
 
 theorem S.pushObj (s : St) (ob : Obj) : S s { s with objs := s.objs.push ob } :=
   ⟨fun _ _ h => h, fun _ _ h => h,
@@ -271,14 +276,18 @@ theorem S.pushObj (s : St) (ob : Obj) : S s { s with objs := s.objs.push ob } :=
     exact ⟨x, by simpa [Array.getElem?_push, Nat.ne_of_lt this] using hx, rfl⟩⟩
 
 theorem Inv.setObj {s : St} (h : Inv s) {ob : Obj} (o : Nat)
-    (hx : ∀ layer ∈ ob.layers, LayerOk (EnvOk s.envs) layer) :
+    (hx : ∀ layer ∈ ob.layers, LayerOk (EnvOk s.envs) layer ∧ LayerShape layer) :
     Inv { s with objs := s.objs.setIfInBounds o ob } :=
   ⟨h.wf,
    ⟨h.g.thunks, h.g.funcs,
     fun t y hy => by
       rcases getElem?_set_cases hy with hy | ⟨_, rfl⟩
       · exact h.g.objs t y hy
-      · exact hx⟩⟩
+      · exact fun l hl => (hx l hl).1⟩,
+   fun t y hy => by
+      rcases getElem?_set_cases hy with hy | ⟨_, rfl⟩
+      · exact h.shape t y hy
+      · exact fun l hl => (hx l hl).2⟩
 
 theorem S.setObj (s : St) (o : Nat) (ob : Obj)
     (hst : ∀ old, s.objs[o]? = some old → ob.layers.map staticLayer = old.layers.map staticLayer) :
@@ -301,7 +310,8 @@ theorem Inv.pushEnv {s : St} (h : Inv s) (env : Env)
       · exact hp p hpar,
    ⟨fun t x hx => (h.g.thunks t x hx).mono (fun e Γ hk => EnvOk.push hk env),
     fun t x hx => (h.g.funcs t x hx).mono (fun e Γ hk => EnvOk.push hk env),
-    fun t x hx l hl => (h.g.objs t x hx l hl).mono (fun e Γ hk => EnvOk.push hk env)⟩⟩
+    fun t x hx l hl => (h.g.objs t x hx l hl).mono (fun e Γ hk => EnvOk.push hk env)⟩,
+   h.shape⟩
 
 theorem S.pushEnv (s : St) (env : Env) : S s { s with envs := s.envs.push env } :=
   ⟨fun _ _ h => h.push env, fun _ _ h => h, fun _ ob h => ⟨ob, h, rfl⟩⟩
@@ -313,10 +323,14 @@ theorem getThunk_spec (s : St) (t : TId) :
   unfold getThunk; mvcgen
   all_goals (vcprep; simp_all)
 
-theorem getEnv_spec (s : St) (e : EId) :
+/-- reading an environment that exists -/
+theorem getEnv_spec (s : St) (e : EId) (h : e < s.envs.size) :
     ⦃fun st => ⌜st = s⌝⦄ getEnv e ⦃Qro s (fun r => s.envs[e]? = some r)⦄ := by
   unfold getEnv; mvcgen
-  all_goals (vcprep; simp_all)
+  all_goals vcprep
+  all_goals first
+    | (simp_all; done)
+    | (rename_i hn; simp [Array.getElem?_eq_getElem h] at hn)
 
 theorem getObj_spec (s : St) (o : OId) :
     ⦃fun st => ⌜st = s⌝⦄ getObj o ⦃Qro s (fun r => s.objs[o]? = some r)⦄ := by
@@ -374,11 +388,13 @@ theorem getObjRef_spec (s : St) (e : EId) (ho : IsObjEnv s.envs e) :
     ⦃fun st => ⌜st = s⌝⦄ getObjRef e ⦃Qro s (fun _ => True)⦄ := by
   have h1 := getEnv_spec
   unfold getObjRef; mvcgen [h1]
+  all_goals clear h1
   all_goals vcprep
-  · simp
-  · obtain ⟨env, g1, g2⟩ := ho
-    simp_all
-  · simp_all
+  all_goals first
+    | (obtain ⟨env, g1, g2⟩ := ho; exact lt_size_of_getElem? g1)
+    | (simp; done)
+    | (obtain ⟨env, g1, g2⟩ := ho; simp_all; done)
+    | (simp_all; done)
 
 theorem allocThunk_spec (s : St) (x : TState) (hI : Inv s)
     (hx : TStateOk (EnvOk s.envs) x) :
@@ -397,14 +413,14 @@ theorem allocFunc_spec (s : St) (fn : Func) (hI : Inv s)
   exact ⟨S.pushFunc _ _, hI.pushFunc hx, rfl, rfl⟩
 
 theorem allocObj_spec (s : St) (ob : Obj) (hI : Inv s)
-    (hx : ∀ layer ∈ ob.layers, LayerOk (EnvOk s.envs) layer) :
+    (hx : ∀ layer ∈ ob.layers, LayerOk (EnvOk s.envs) layer ∧ LayerShape layer) :
     ⦃fun st => ⌜st = s⌝⦄ allocObj ob ⦃Q s (fun _ _ => True)⦄ := by
   unfold allocObj; mvcgen
   vcprep
   exact ⟨S.pushObj _ _, hI.pushObj hx, trivial⟩
 
 theorem setObj_spec (s : St) (o : OId) (ob : Obj) (hI : Inv s)
-    (hx : ∀ layer ∈ ob.layers, LayerOk (EnvOk s.envs) layer)
+    (hx : ∀ layer ∈ ob.layers, LayerOk (EnvOk s.envs) layer ∧ LayerShape layer)
     (hst : ∀ old, s.objs[o]? = some old → ob.layers.map staticLayer = old.layers.map staticLayer) :
     ⦃fun st => ⌜st = s⌝⦄ setObj o ob
       ⦃Q s (fun _ st => ∀ old, s.objs[o]? = some old → st.objs[o]? = some ob)⦄ := by
@@ -524,7 +540,8 @@ theorem newThunk_spec (s : St) (e : Expr) (env : EId) (hI : Inv s)
 
 /-- `ThunkEnvData::new(parent)` with variables: the static view of the child from the static view
     of the parent -/
-theorem newEnv_spec (s : St) (p : EId) (vars : List (String × TId)) (hI : Inv s) :
+theorem newEnv_spec (s : St) (p : EId) (vars : List (String × TId)) (hI : Inv s)
+    (hp : p < s.envs.size) :
     ⦃fun st => ⌜st = s⌝⦄ newEnv (some p) vars
       ⦃Q s (fun r st => ∀ Γ Γ', EnvOk st.envs p Γ → (Γ'.isObj = true → Γ.isObj = true) →
           (∀ n, Γ'.has n = true → n ∈ vars.map Prod.fst ∨ Γ.has n = true) → EnvOk st.envs r Γ')⦄ := by
@@ -533,13 +550,15 @@ theorem newEnv_spec (s : St) (p : EId) (vars : List (String × TId)) (hI : Inv s
   mvcgen [h1]
   all_goals clear h1
   all_goals vcprep
-  · rename_i penv _ hp
-    have hlt := lt_size_of_getElem? hp
-    refine ⟨S.pushEnv _ _, hI.pushEnv _ (by intro q hq; cases hq; exact hlt), ?_⟩
-    intro Γ Γ' hΓ hio hv
-    exact envOk_child (env := { parent := some p, vars := vars, obj := penv.obj }) (penv := penv)
-      (by simp) rfl (by simp [Array.getElem?_push, Nat.ne_of_lt hlt, hp]) (fun h => h) hΓ hio hv
-  · exact ⟨by assumption, fun _ => hI⟩
+  all_goals first
+    | exact hp
+    | (rename_i penv _ hp'
+       have hlt := lt_size_of_getElem? hp'
+       refine ⟨S.pushEnv _ _, hI.pushEnv _ (by intro q hq; cases hq; exact hlt), ?_⟩
+       intro Γ Γ' hΓ hio hv
+       exact envOk_child (env := { parent := some p, vars := vars, obj := penv.obj }) (penv := penv)
+         (by simp) rfl (by simp [Array.getElem?_push, Nat.ne_of_lt hlt, hp']) (fun h => h) hΓ hio hv)
+    | exact ⟨by assumption, fun _ => hI⟩
 
 /-! ### The recursive calls -/
 
@@ -551,6 +570,15 @@ def TaskOk (envs : Array Env) : Task → Prop
 theorem taskOk_eval {a b : St} {env : EId} {Γ : AEnv} {e : Expr} {tail : Bool} {d : Nat}
     (hk : EnvOk a.envs env Γ) (hs : S a b) (hw : WS e Γ) : TaskOk b.envs (.eval e env tail d) :=
   ⟨Γ, hs.env _ _ hk, hw⟩
+
+theorem inRange_of {a b : St} {e : EId} {Γ : AEnv} (hk : EnvOk a.envs e Γ) (hS : S a b) :
+    e < b.envs.size := (hS.env _ _ hk).inRange
+
+/-- the environment of a stored closure exists -/
+theorem func_env_lt {s0 st : St} {f : Nat} {fn : Func} (hf0 : s0.funcs[f]? = some fn) (hS : S s0 st)
+    (hI : Inv st) : fn.env < st.envs.size := by
+  obtain ⟨Γ, h1, _⟩ := hI.g.funcs f fn (hS.funcs _ _ hf0)
+  exact h1.inRange
 
 /-- what is assumed of the recursive-call function, and proved of `step` -/
 abbrev RecOk (rec : Task → M Value) : Prop :=
@@ -566,6 +594,7 @@ macro_rules
     | contradiction
     | (simp [Good, NonPanic]; done)
     | (apply taskOk_eval <;> first | assumption | schain)
+    | (apply inRange_of <;> first | assumption | schain)
     | (intro _; sclose)
     | (refine ⟨?_, ?_⟩ <;> sclose))
 
